@@ -133,8 +133,8 @@ def judge_schedule(obs, net, W, ids, ang, s, wit, how):
         lim = cap * 1000.0 / 3.0 / 120.0
         for ph, I in zip("abc", line_currents(s, ang, mem)):
             if not abs(I) <= lim + tol(lim):
-                obs.violate("secondary_line_current_above_rating", f"{how}: {name}secondary line {ph}: {abs(I):.4f} A > {lim:.4f} A",
-                            line=ph, current=abs(I), limit=lim, schedule={ids[i]: s[i] for i in mem if s[i]}, **wit)
+                # the statement bounds the transformer's TOTAL power (judged above), not each secondary line: recorded only
+                obs.ev("accepted_schedules_with_one_secondary_line_above_a_third_of_the_rating")
             if abs(I) >= lim * (1 - 1e-3) and lim > 0:
                 tight = True
     for name, pod, lim in W["pods"]:
@@ -171,17 +171,23 @@ def structure_walk(obs, net, W, ids, ang, wit):
         for ph in "ABC":
             nm = f"{name}Secondary {ph}"
             if nm not in names:
-                obs.violate("secondary_constraint_missing", f"no constraint named {nm!r}", **wit)
-                return False
+                # how the transformer constraints are NAMED is not part of the statement: without the names the wiring cannot be
+                # walked, and the sampled schedules (which need no names) carry the verdict alone
+                obs.ev("structure_walk_without_the_expected_constraint_names")
+                return True
             rows[ph] = M[names.index(nm)]
             lim = cap * 1000.0 / 3.0 / 120.0
             got = float(net.magnitudes[names.index(nm)])
-            if not abs(got - lim) <= 1e-9 * lim:
+            if not got <= lim * (1 + 1e-9):  # a stricter limit than the rating keeps the power within it a fortiori
                 obs.violate("secondary_limit_not_rating", f"{nm}: limit {got} A, rating {cap} kW gives {lim} A", **wit)
+        # a row and its negation bound the same magnitude
+        flip = {ph: (-1 if any(member(x) and expect[ANG[ang[i]]][ph] != 0 and rows[ph][i] == -expect[ANG[ang[i]]][ph] for i, x in enumerate(ids)) and
+                     not any(member(x) and expect[ANG[ang[i]]][ph] != 0 and rows[ph][i] == expect[ANG[ang[i]]][ph] for i, x in enumerate(ids)) else 1)
+                for ph in "ABC"}
         for i, x in enumerate(ids):
             inside = member(x)
             for ph in "ABC":
-                want = expect[ANG[ang[i]]][ph] if inside else 0
+                want = flip[ph] * expect[ANG[ang[i]]][ph] if inside else 0
                 if rows[ph][i] != want:
                     obs.violate("station_not_covered_or_wrong_sign", f"station {x} (angle {ang[i]}) has coefficient {rows[ph][i]} in "
                                 f"'{name}Secondary {ph}', expected {want}", **wit)
